@@ -117,6 +117,8 @@ TNext ==
        [] r.ev = "shiftcmp" ->
             /\ bad' = Flag(r.case, ShiftViol(r), l)
             /\ UNCHANGED <<sl, s, pr>>
+       [] r.ev = "drift" ->       \* model-vs-code comparison of a replayed behaviour: informational
+            UNCHANGED <<sl, s, pr, bad>>
        [] r.ev \in {"same", "expand", "drop4"} ->
             /\ bad' = Flag(r.case, CmpViol(r), l)
             /\ UNCHANGED <<sl, s, pr>>
